@@ -3,9 +3,13 @@
    (instantiated with Model/PlaylistOracle.go_oracles) disagrees, with the observable:
      1 = Marshal bytes, 2 = Media.Unmarshal, 3 = Multivariant.Unmarshal, 4 = playlist.Unmarshal,
      5 = the model answered Panic / OutOfFuel,
-     6 = Model/PlaylistStrict.strict_ok disagrees with the Go grammar checker (no violation). *)
+     6 = Model/PlaylistStrict.strict_ok disagrees with the Go grammar checker (no violation),
+     7 = the value satisfies the hypotheses of c15_grammar_media / _multivariant (wf and strict,
+         evaluated here) but strict_ok rejects the REAL Marshal output: the theorem's prediction
+         fails on the implementation. *)
 From Coq Require Import List ZArith Bool String Ascii Uint63.
-From GoHls Require Import Model.PlaylistBase Model.PlaylistOracle Model.Playlist Model.PlaylistStrict.
+From GoHls Require Import Model.PlaylistBase Model.PlaylistOracle Model.Playlist Model.PlaylistSpec
+  Model.PlaylistStrict Model.PlaylistStrictSpec.
 Import ListNotations.
 Local Open Scope string_scope.
 Local Open Scope Z_scope.
@@ -97,9 +101,12 @@ Definition check_case (c : pcase) : list nat :=
   | CValueMedia m bytes media multi auto strict =>
       (if String.eqb (media_marshal go_oracles m) bytes then [] else [1%nat])
       ++ check_unmarshal bytes media multi auto ++ check_strict bytes strict
+      ++ (if is_some strict && wf_media m && strict_media m && negb (strict_ok bytes) then [7%nat] else [])
   | CValueMulti m bytes media multi auto strict =>
       (if String.eqb (multivariant_marshal go_oracles m) bytes then [] else [1%nat])
       ++ check_unmarshal bytes media multi auto ++ check_strict bytes strict
+      ++ (if is_some strict && wf_multivariant m && strict_multivariant m && negb (strict_ok bytes)
+          then [7%nat] else [])
   | CUnmarshal s media multi auto strict => check_unmarshal s media multi auto ++ check_strict s strict
   end.
 
